@@ -167,3 +167,7 @@ pub trait RequestHook: Serve {
     }
 }
 impl<S: Serve> RequestHook for S {}
+
+#[cfg(kani)]
+#[path = "/verif/kani/hooks.rs"]
+mod verif_kani;
